@@ -6,11 +6,15 @@ desc = sys.argv[4] if len(sys.argv) > 4 else ""
 wt = os.environ.get("SEED_WT") or f"/tmp/wt_{pid}"
 d = f"/verif/seeded/{sid}"
 os.makedirs(d, exist_ok=True)
-diff = subprocess.run("git diff -- taskiq", shell=True, cwd=wt, capture_output=True, text=True).stdout
-if not diff.strip():
-    diff = open(f"{wt}/patch.diff").read()
+pf = os.environ.get("SEED_PATCH")
+if pf:
+    diff = open(f"{wt}/{pf}").read()
+else:
+    diff = subprocess.run("git diff -- taskiq", shell=True, cwd=wt, capture_output=True, text=True).stdout
+    if not diff.strip():
+        diff = open(f"{wt}/patch.diff").read()
 open(f"{d}/patch.diff", "w").write(diff)
-shutil.copy(f"{wt}/demo.py", f"{d}/demo.py")
+shutil.copy(f"{wt}/" + os.environ.get("SEED_DEMO", "demo.py"), f"{d}/demo.py")
 meta = {"id": sid, "property": pid, "origin": "independent sub-agent given only the property text and a scratch worktree",
         "description": desc, "needs": needs}
 json.dump(meta, open(f"{d}/meta.json", "w"), indent=1)
